@@ -188,4 +188,9 @@ theorem not_codes_flip :
     places behaves at each place as an independent copy would -/
 theorem shared_schema_is_read_only : Gen.schemaWrites = [] := by decide
 
+/-- a shared schema's Default is never handed out: every use of the schema gets its own deep copy, so a write
+    through one destination cannot change what the next use of the same schema object starts from
+    (regenerated behavioural fact: six default shapes, each validated twice with an in-place write) -/
+theorem shared_default_is_copied : Gen.sliceDefaultDeep = true := by decide
+
 end Zog.Props.C17
